@@ -131,7 +131,8 @@ func (p *{{parser}}) parse(lex _Lexer) bool {
 				latok = p._lasym.(Error).Token
 			}
 			{{- end }}
-			if p._la != ERROR {
+			shiftedError := p._la == ERROR
+			if !shiftedError {
 				p._recovering = false
 			}
 			p._stack.Push(_item{
@@ -145,6 +146,11 @@ func (p *{{parser}}) parse(lex _Lexer) bool {
 				{{- end }}
 			})
 			p._readToken()
+			// Consecutive lexer errors are reported once, by the first of them
+			// (_recover does the same).
+			for shiftedError && p._la == ERROR {
+				p._readToken()
+			}
 		} else { // reduce
 			prod := -action
 			termCount := _termCounts[int(prod)]
@@ -243,6 +249,7 @@ func (p *{{parser}}) _recover() bool {
 
 	for {
 		save := p._stack
+		saveErrSym := errSym
 
 		for len(p._stack) >= 1 {
 			// Simulate the reductions that would precede shifting ERROR on a copy of
@@ -284,6 +291,11 @@ func (p *{{parser}}) _recover() bool {
 				return true
 			}
 
+			// An error that was shifted but not yet reduced is about to be
+			// discarded. It came first, so it is the one to report.
+			if e, ok := p._stack.Peek(0).Sym.(Error); ok {
+				errSym = e
+			}
 			p._stack.Pop(1)
 		}
 
@@ -292,6 +304,7 @@ func (p *{{parser}}) _recover() bool {
 		}
 
 		p._stack = save
+		errSym = saveErrSym
 		p._readToken()
 	}
 }
